@@ -312,5 +312,11 @@ def search(ctx):
         ctx.tier = old
 
 
-def probe(kf):  # no known findings
-    return False
+def probe(kf):
+    """Replay a recorded known finding on the implementation; True if it still fails."""
+    from jsonpath import JSONPointer
+
+    try:
+        return str(JSONPointer(kf["probe"]["pointer"])) != kf["probe"]["pointer"]
+    except Exception:  # noqa: BLE001
+        return True
